@@ -139,7 +139,6 @@ class Process:
         d = twisted.internet.defer.Deferred()
         d.addCallback(self.step_1)
         d.addCallbacks(self.step_2, self.failure)
-        d.addCallbacks(self.step_3, self.failure)
         d.addErrback(self.failure)
         twisted.internet.reactor.callLater(0, d.callback, None)
         return
